@@ -42,6 +42,9 @@ type vfC11Case struct {
 	Vecs     [][]float32 `json:"vecs"` // document vectors, indexed by (goroutine*64 + n) % len
 	Conf     vfStoreConf `json:"conf"`
 	Directed bool        `json:"directed,omitempty"` // store: force the window between choosing the memtable and writing to it
+	// which yield point the directed schedule parks the first arrival at ("" = memq:before_write):
+	// memq:before_write (an add that has chosen its memtable) | remove:before_remove (a Remove that has)
+	DirectedAt string `json:"directed_at,omitempty"`
 }
 
 var vfC11Targets = []string{"store", "store_close", "ids", "filter_pool", "store_flush_search", "hybrid", "bm25", "store", "metadata", "flat", "hnsw", "ivf", "pq", "ivfpq"}
@@ -118,6 +121,9 @@ func vfC11Gen(rt *rapid.T) vfC11Case {
 	c.Conf.MemLimit = rapid.SampledFrom([]int64{1, 400, 900, 3000}).Draw(rt, "memtable_limit")
 	c.Conf.FlushThr = rapid.SampledFrom([]int64{600, 1500, 1 << 40}).Draw(rt, "flush_threshold")
 	c.Directed = (c.Target == "store" || c.Target == "store_close") && rapid.IntRange(0, 2).Draw(rt, "directed") == 0
+	if c.Directed && c.Target == "store" {
+		c.DirectedAt = rapid.SampledFrom([]string{"memq:before_write", "remove:before_remove"}).Draw(rt, "directed_at")
+	}
 	return c
 }
 
@@ -380,8 +386,12 @@ func vfC11RunCase(c vfC11Case, ctx *vfCtx) *vfViolation {
 	var parkOnce sync.Once
 	if c.Directed && t.store != nil {
 		parked, releaseWriter = make(chan struct{}), make(chan struct{})
+		at := c.DirectedAt
+		if at != "remove:before_remove" {
+			at = "memq:before_write"
+		}
 		vfInstallHook(func(name string, args ...any) {
-			if name == "memq:before_write" {
+			if name == at {
 				parkOnce.Do(func() {
 					close(parked)
 					<-releaseWriter
@@ -389,7 +399,7 @@ func vfC11RunCase(c vfC11Case, ctx *vfCtx) *vfViolation {
 			}
 		})
 		defer vfInstallHook(nil)
-		ctx.Class("directed_yield_at_memq:before_write")
+		ctx.Class("directed_yield_at_" + at)
 	}
 
 	var clock, inFlight, overlaps atomic.Int64
